@@ -37,6 +37,7 @@ func runC06(c *core.Ctx) {
 	c.Rule("R10", "every queued update is consumed by its key's worker only; watcher lists are edited by append / slice-out only", 2)
 	c.Rule("R11", "a watcher's wake-up is consumed only by the select that reads the value next (no notification is dropped after the read)", 2)
 	c.Rule("R12", "token conflicts are resolved by a symmetric rule of the two holders, so replicas holding the same entries agree on ownership whatever their map iteration order (shared with C05.R3)", 2)
+	c.Rule("R13", "every message decoded on the receive paths starts empty: generated Unmarshal merges into its receiver, so a reused message is Reset in the same iteration", 2)
 	c.Rule("R7", "ring Mergeables accept an incoming entry by the same LWW table whatever the origin (local CAS or gossip)", 3)
 	pkg := c.Prog.Pkg("kv/memberlist")
 	if pkg == nil {
@@ -55,6 +56,7 @@ func runC06(c *core.Ctx) {
 	c06Queues(c, pkg)
 	c06Wakeups(c, pkg)
 	c05WinnerAs(c, "R12")
+	c06FreshDecode(c, pkg)
 }
 
 // c06Invalidates (R6): a queued broadcast is dropped in favour of a newer one only when that one is for
@@ -842,4 +844,121 @@ func commRecvExpr(s ast.Stmt) ast.Expr {
 		return u.X
 	}
 	return nil
+}
+
+// c06FreshDecode (R13): generated protobuf Unmarshal MERGES into its receiver — scalar fields that are absent
+// from the wire (proto3 omits zero values: deleted=false, update time 0) keep whatever the receiver held. Every
+// Unmarshal of a message on the receive paths must therefore act on an empty message: the variable is declared
+// inside the innermost loop around the call (or there is no loop) and this is its only Unmarshal, or a Reset() /
+// zero-value assignment of that very variable dominates the call inside the same loop iteration.
+func c06FreshDecode(c *core.Ctx, pkg *packages.Package) {
+	n := 0
+	for _, top := range an.Funcs(pkg) {
+		if strings.HasSuffix(c.Prog.Fset.Position(top.Pos()).Filename, ".pb.go") {
+			continue
+		}
+		for _, fn := range append([]*an.Fn{top}, top.AllLits()...) {
+			g := fn.Graph()
+			// loops of this function body
+			var loops []ast.Stmt
+			fn.InspectShallow(func(nd ast.Node) bool {
+				switch nd.(type) {
+				case *ast.ForStmt, *ast.RangeStmt:
+					loops = append(loops, nd.(ast.Stmt))
+				}
+				return true
+			})
+			innermost := func(pos token.Pos) ast.Stmt {
+				var best ast.Stmt
+				for _, l := range loops {
+					if l.Pos() <= pos && pos < l.End() && (best == nil || l.Pos() >= best.Pos()) {
+						best = l
+					}
+				}
+				return best
+			}
+			perVar := map[types.Object][]*ast.CallExpr{}
+			for _, call := range fn.Calls(false) {
+				sel, ok := call.Expr.Fun.(*ast.SelectorExpr)
+				if !ok || sel.Sel.Name != "Unmarshal" {
+					continue
+				}
+				f := call.Func()
+				if f == nil {
+					continue
+				}
+				sig := f.Type().(*types.Signature)
+				if sig.Recv() == nil {
+					continue
+				}
+				// a generated message: has Reset and ProtoMessage
+				ms := types.NewMethodSet(sig.Recv().Type())
+				if ms.Lookup(f.Pkg(), "Reset") == nil || ms.Lookup(f.Pkg(), "ProtoMessage") == nil {
+					continue
+				}
+				obj := fn.ObjOf(sel.X)
+				if obj == nil {
+					n++
+					c.Undec("R13", fmt.Sprintf("decode:func=%s:recv=%s", fn.Name, types.ExprString(sel.X)), call.Expr.Pos(), "Unmarshal on something that is not a plain variable: cannot tell whether the message is empty")
+					continue
+				}
+				perVar[obj] = append(perVar[obj], call.Expr)
+			}
+			for obj, calls := range perVar {
+				for i, call := range calls {
+					n++
+					key := fmt.Sprintf("decode:func=%s:var=%s#%d", fn.Name, obj.Name(), i+1)
+					loop := innermost(call.Pos())
+					declaredInside := loop == nil && !obj.(*types.Var).IsField() || loop != nil && loop.Pos() <= obj.Pos() && obj.Pos() < loop.End()
+					for _, d := range fn.DefSites(obj) {
+						if d.Param {
+							declaredInside = false
+						}
+					}
+					if declaredInside && len(calls) == 1 {
+						c.Hold("R13", key, call.Pos(), fmt.Sprintf("%s is declared in the same iteration/function as its only Unmarshal: the message starts empty", obj.Name()), 1)
+						continue
+					}
+					// otherwise: a reset of obj dominates the call inside the same loop
+					okReset := false
+					fn.InspectShallow(func(nd ast.Node) bool {
+						var reset ast.Node
+						switch x := nd.(type) {
+						case *ast.ExprStmt:
+							if rc, ok := x.X.(*ast.CallExpr); ok {
+								if rs, ok := rc.Fun.(*ast.SelectorExpr); ok && rs.Sel.Name == "Reset" && fn.ObjOf(rs.X) == obj && len(rc.Args) == 0 {
+									reset = x
+								}
+							}
+						case *ast.AssignStmt:
+							if len(x.Lhs) == 1 && len(x.Rhs) == 1 && fn.ObjOf(x.Lhs[0]) == obj {
+								if cl, ok := an.Unparen(x.Rhs[0]).(*ast.CompositeLit); ok && len(cl.Elts) == 0 {
+									reset = x
+								}
+							}
+						}
+						if reset == nil {
+							return true
+						}
+						sameIter := innermost(reset.Pos()) == loop
+						// no other Unmarshal of obj between the reset and this call
+						between := false
+						for _, other := range calls {
+							if other != call && g.NodeBefore(reset, other) && g.NodeBefore(other, call) {
+								between = true
+							}
+						}
+						if sameIter && g.NodeBefore(reset, call) && !between {
+							okReset = true
+						}
+						return true
+					})
+					c.Check(okReset, "R13", key, call.Pos(), fmt.Sprintf("%s is reused across iterations/calls: a Reset() (or zero-value assignment) of it dominates this Unmarshal inside the same iteration = %v — generated Unmarshal merges into the receiver, so fields absent from the wire (deleted=false, update time 0) would keep the previous message's values", obj.Name(), okReset), 1)
+				}
+			}
+		}
+	}
+	if n == 0 {
+		c.Undec("R13", "decode:count", pkg.Syntax[0].Pos(), "no protobuf Unmarshal call found in the package")
+	}
 }
